@@ -77,6 +77,7 @@ type BaseStore struct {
 	muCache   sync.RWMutex
 	muIndex   sync.RWMutex
 	muJoining sync.Mutex
+	muWrite   sync.Mutex
 	sortFn    ipfslog.SortFn
 	logger    *zap.Logger
 	tracer    trace.Tracer
@@ -918,6 +919,30 @@ func (b *BaseStore) AddOperation(ctx context.Context, op operation.Operation, on
 
 	oplog := b.OpLog()
 
+	e, err := b.appendAndIndex(ctx, oplog, data)
+	if err != nil {
+		return nil, err
+	}
+
+	if err := b.emitters.evtWrite.Emit(stores.NewEventWrite(b.Address(), e, oplog.Heads().Slice())); err != nil {
+		b.logger.Warn("unable to emit event write", zap.Error(err))
+	}
+
+	if onProgressCallback != nil {
+		onProgressCallback <- e
+	}
+
+	return e, nil
+}
+
+// appendAndIndex appends data to the log, persists the new local head and updates the
+// index as a single critical section: concurrent writers would otherwise be able to
+// persist an older head after a newer one (losing acknowledged writes on the next load)
+// or to apply a stale index rebuild after a fresher one.
+func (b *BaseStore) appendAndIndex(ctx context.Context, oplog ipfslog.Log, data []byte) (ipfslog.Entry, error) {
+	b.muWrite.Lock()
+	defer b.muWrite.Unlock()
+
 	e, err := oplog.Append(ctx, data, &ipfslog.AppendOptions{PointerCount: b.referenceCount})
 	if err != nil {
 		return nil, fmt.Errorf("unable to append data on log: %w", err)
@@ -942,14 +967,6 @@ func (b *BaseStore) AddOperation(ctx context.Context, op operation.Operation, on
 		return nil, fmt.Errorf("unable to update index: %w", err)
 	}
 	verifhook.Point("store.after_index", b.id, e.GetHash().String())
-
-	if err := b.emitters.evtWrite.Emit(stores.NewEventWrite(b.Address(), e, oplog.Heads().Slice())); err != nil {
-		b.logger.Warn("unable to emit event write", zap.Error(err))
-	}
-
-	if onProgressCallback != nil {
-		onProgressCallback <- e
-	}
 
 	return e, nil
 }
